@@ -55,6 +55,8 @@ Inductive msg :=
 
 Inductive cmd :=
 | CCreatePub | CCreateSub
+| CCreateSubRemote         (* create-subscriber with remoteUrl + remoteToken (token accepted, subject = publisher id):
+                              NewRemotePublisher, then NewRemoteSubscriber; see "remote subscribers" at the end *)
 | CDeletePub (id : N) | CDeleteSub (id : N)
 | CStreams (id : N)        (* get-publisher-streams *)
 | COther.                  (* a command type the proxy does not know *)
@@ -265,6 +267,7 @@ Definition command (st : state) (c sid : N) (k : cmd) : state * outcome :=
   match k with
   | CCreatePub => create st c sid Pub
   | CCreateSub => create st c sid Sub
+  | CCreateSubRemote => create st c sid Sub    (* one pending creation for both calls at the media server *)
   | CDeletePub id => delete st c sid Pub id
   | CDeleteSub id => delete st c sid Sub id
   | CStreams id =>
